@@ -283,6 +283,39 @@ pub fn events(args: &[String]) {
             }
         }
     }
+    first_output_before_terminal();
+}
+
+/// C10 with `first_step`: when the first trial step is rejected, the first output x0 + first_step is an interpolated point
+/// inside a later step.  A terminal event later in that same step must not swallow it: everything before the stop is what
+/// the run without the terminal flag reports.
+fn first_output_before_terminal() {
+    let mut k = 0;
+    for method in [Method::RK23, Method::DOPRI5, Method::DOP853, Method::RADAU, Method::BDF] {
+        for (kind, xend, first, rtol) in [(Kind::Harmonic, 4.0, 1.0, 1e-6), (Kind::Harmonic, -4.0, 1.0, 1e-6), (Kind::VdP, 3.0, 0.5, 1e-7), (Kind::Mixed, 5.0, 2.0, 1e-8)] {
+            let mut p = Prob::new(kind);
+            let y0 = p.y0();
+            let mk = || { let mut o = Options::builder().method(method).rtol(rtol).atol(rtol * 1e-2).build(); o.first_step = Some(first); o };
+            let plain = match solve_ivp(&p, 0.0, xend, &y0, mk()) { Ok(r) => r, Err(_) => continue };
+            let dirn = xend.signum();
+            let mut why = String::new();
+            let mut extra = String::new();
+            // the first output is at x0 + first_step; the sample after it ends the step that contains it
+            if plain.t.len() >= 3 && (plain.t[1] - dirn * first).abs() < 1e-12 {
+                let c = 0.5 * (plain.t[1] + plain.t[2]);
+                p.events = vec![EventSpec { a: 1.0, b: vec![0.0; p.n()], c, dir: 0, terminal: Some(1) }];
+                if let Ok(term) = solve_ivp(&p, 0.0, xend, &y0, mk()) {
+                    extra = format!("\"plain_first\":{:?},\"terminal_t\":{:?},", &plain.t[..3], term.t);
+                    let want = [plain.t[0], plain.t[1]];
+                    if term.status != Status::UserInterrupt { why = format!("terminal event at {} inside the span: status {:?}", c, term.status); }
+                    else if term.t.len() < 3 || term.t[..2] != want { why = format!("first_step = {}: the run with a terminal event at t = {} reports t = {:?}; without the flag the samples before the stop are {:?}", first, c, term.t, want); }
+                }
+            }
+            println!("{{\"kind\":\"ev\",\"case\":{},\"problem\":\"{:?}\",\"method\":\"{}\",\"x0\":0,\"xend\":{},\"first_step\":{},\"branch\":\"first-output-before-terminal\",\"finding_key\":\"{}\",{}\"ok\":{},\"why\":{:?}}}",
+                650000 + k, kind, method_name(method), xend, first, if why.is_empty() { "" } else { "c10-first-output-dropped" }, extra, why.is_empty(), why);
+            k += 1;
+        }
+    }
 }
 
 pub fn teval(args: &[String]) {
